@@ -129,7 +129,7 @@ def observe (sm : Sim) : Sim :=
   let sent := (s.sentAnswers.map fun (_, (_, dq)) => dq.length).foldl (· + ·) 0
   let peerW := (s.peerWaiting.map fun (_, l) => l.length).foldl (· + ·) 0
   let ansW := (s.apps.map fun a => a.answerWaiting.length).foldl (· + ·) 0
-  let size := s!"SIZE conns={s.connections.length} socks={s.peerSockets.length} sockPeers={s.socketPeers.length} half={s.halfReady.length} appW={s.appWaiting.length} peerW={peerW} origW={s.originWaiting.length} sent={sent} ansW={ansW}"
+  let size := s!"SIZE conns={s.connections.length} socks={s.peerSockets.length} sockPeers={s.socketPeers.length} half={s.halfReady.length} appW={s.appWaiting.length} peerW={peerW} origW={s.originWaiting.length} sent={sent} ansW={ansW} peerWc={s.peerWaiting.length}"
   let openSocks := (s.conns.filter fun c => !c.sockClosed).length + sm.w.acceptQ
   let workers := (s.conns.map fun c => if c.workersStopped then 0 else (if c.readerCrashed then 1 else 2)).foldl (· + ·) 0
   let crashed := (sm.lines.filter (·.startsWith "CRASH")).length
@@ -149,6 +149,12 @@ partial def event (sm : Sim) (ev : String) (nested : Bool := false) : Sim :=
     | ["acc"] => (sm.op .accept).settle
     | "rx" :: k :: msgs => (sm.op (.rx (k.toNat?.getD 0) (.data (msgs.map parseMsg)))).settle
     | ["rxraw", k, _] => (sm.op (.rx (k.toNat?.getD 0) .touch)).settle
+    | "rxm" :: parts =>
+      -- several sockets readable in the same pass: queue all, then let the loop run
+      (parts.foldl (fun sm p =>
+        match p.splitOn ":" with
+        | k :: rest => sm.op (.rx (k.toNat?.getD 0) (.data [parseMsg (":".intercalate rest)]))
+        | [] => sm) sm).settle
     | ["rxcut", k, _, m1, m2] =>
       -- one read holding `m1` and the first octets of `m2`, the rest of `m2` in the next read
       ((sm.op (.rx (k.toNat?.getD 0) (.data [parseMsg m1]))).settle.op (.rx (k.toNat?.getD 0) (.data [parseMsg m2]))).settle
